@@ -186,4 +186,47 @@ def c12(c):
                          "both builds logged identical calls, arguments and observables")
 
 
-CHECKS = {"C12": c12, "C17": c17, "C06": c06, "C09": c09, "C10": c10, "C11": c11, "C01": c01, "C02": c02, "C03": c03, "C04": c04, "C05": c05, "C07": c07, "C08": c08}
+RT = dict(module="R1csTrace.tla", cfg="cfg/R1csTrace.cfg")
+
+
+def gadget_cfgs(tier):
+    idx = open(os.path.join(SPEC, "cfg", "INDEX")).read().split()
+    out = []
+    for name in idx:
+        m = re.match(r"MC_Gadgets_p(\d+)_(\w+)\.cfg", name)
+        if m and (tier == "thorough" or int(m.group(1)) <= 41):
+            out.append(("MC_Gadgets.tla", "cfg/" + name))
+    return out
+
+
+def c13(c):
+    build("ark")
+    c.mc(gadget_cfgs(c.tier) + [("LazyVar.tla", "cfg/LazyVar.cfg")])
+    plan, n, st = gen_lazy_plan()
+    c.states += st
+    c.transitions += st
+    c.notes.append("LazyVar: TLC enumerated %d accessor-call sequences (length <= 5) from both initial states; all replayed into the real gadget" % n)
+    c.exhaustive_parts.append("every sequence of <= 5 forcing calls x {from encoding, from element} x {valid, identity, invalid, random}")
+    c.trace("ark", "lazy", 0, plan, **RT)
+    c.trace("ark", "gadgets", scale(c.tier, 40, 1500), **RT)
+    return c.finish(rule="distinct (gadget, allocation mode) combinations synthesised honestly plus distinct forcing sequences")
+
+
+def c14(c):
+    build("ark")
+    c.mc(gadget_cfgs(c.tier))
+    c.trace("ark", "hints", scale(c.tier, 12, 500), **RT)
+    return c.finish(rule="distinct (gadget, input class, substituted hint) combinations; toy part: every input x every "
+                         "(flag, y) in BOOLEAN x F_p on toy curves")
+
+
+def c15(c):
+    build("ark")
+    c.trace("ark", "shapes", scale(c.tier, 3, 60), **RT)
+    c.trace("ark", "groth16", scale(c.tier, 3, 40), **RT)
+    c.trace("ark", "circuits", scale(c.tier, 10, 300), **RT)
+    return c.finish(rule="distinct (gadget or circuit, allocation mode) shapes compared over inputs and setup/prove mode, "
+                         "plus Groth16 prove/verify cases under the pinned keys")
+
+
+CHECKS = {"C13": c13, "C14": c14, "C15": c15, "C12": c12, "C17": c17, "C06": c06, "C09": c09, "C10": c10, "C11": c11, "C01": c01, "C02": c02, "C03": c03, "C04": c04, "C05": c05, "C07": c07, "C08": c08}
